@@ -36,8 +36,9 @@ SERVER_ROWS = ["std-ctx", "std-ctx-clientcert", "pyo-ctx", "pyo-ctx-clientcert",
                "selfsigned-pyo", "start-supplied", "start-supplied-rules", "start-auto", "start-auto-rules",
                "start-require-client-cert", "start-mismatched-key", "start-mismatched-key-rules", "start-malformed-key",
                "start-auto-anyhost", "start-supplied-anyhost", "start-auto-rules-anyhost",
+               "start-auto-port-busy", "start-supplied-port-busy", "start-supplied-rules-port-busy",
                "std-ctx-weak", "pyo-ctx-weak", "pyo-ctx-clientcert-weak", "start-supplied-weak", "start-supplied-weak-rules"]
-UNUSABLE = ("mismatched", "malformed", "weak")  # rows whose certificate/key pair the TLS library rejects as configured
+UNUSABLE = ("mismatched", "malformed", "weak", "port-busy")  # rows whose certificate/key pair the TLS library rejects as configured
 GEMINI_RESP = re.compile(rb"(^|\n)[1-6][0-9] [^\r\n]*\r\n")
 
 
@@ -109,6 +110,8 @@ async def _build_row(loop, row, counter):
         cfg = ServerConfig(host="127.0.0.1", port=1965, document_root=root)
     if "anyhost" in row:
         cfg.host = "0.0.0.0"  # the IPv4 wildcard address
+    if "port-busy" in row and hasattr(loop, "captured_servers"):
+        loop.bind_failures = 1  # the first bind fails with EADDRINUSE; failing to start is fine, a cleartext listener is not
     if "acl-denied" in row:
         # the harness peer's address is on the deny list
         cfg.enable_access_control = True
